@@ -520,6 +520,8 @@ func (t *trTranslator) fragNodes(f *trFunc, sp *trFragSpec) (ast.Expr, []ast.Stm
 			trFail(f.decl.Pos(), "fragment %s: the statements from `%s := …` to `%s` are not found in %s", sp.name, sp.from, sp.until, f.leanName)
 		}
 		return nil, list[start:end], list[end:]
+	case "litstmts":
+		return t.wqFragNodes(f, sp) // statements of an inner block (trans_units_weightsquery.go)
 	}
 	trFail(f.decl.Pos(), "fragment %s: unknown kind %s", sp.name, sp.kind)
 	return nil, nil, nil
@@ -564,6 +566,10 @@ func (t *trTranslator) fragCallees(f *trFunc) []*trFunc {
 func (t *trTranslator) translateFragments(f *trFunc) {
 	var out strings.Builder
 	for _, sp := range trFragsOf(f) {
+		if sp.kind == "text" {
+			out.WriteString(t.wqFragText(f, sp)) // a statement pinned by its source text (trans_units_weightsquery.go)
+			continue
+		}
 		out.WriteString(t.translateFragment(f, sp))
 	}
 	f.text = out.String()
@@ -632,7 +638,7 @@ func (t *trTranslator) translateFragment(f *trFunc, sp *trFragSpec) string {
 		resType = c.leanType(ty, expr.Pos())
 		v := c.exprAs(expr, ty)
 		term = trWrapPre(c.takePre(), trOne("Outcome.ok "+v))
-	case "stmts":
+	case "stmts", "litstmts":
 		// the result: the variables declared or assigned in the fragment that the rest of the function uses
 		var outs []types.Object
 		outSeen := map[types.Object]bool{}
@@ -681,7 +687,7 @@ func (t *trTranslator) translateFragment(f *trFunc, sp *trFragSpec) string {
 		b.WriteString(a + "\n")
 	}
 	doc := "the expression of type `" + sp.typ + "`"
-	if sp.kind == "stmts" {
+	if sp.kind == "stmts" || sp.kind == "litstmts" {
 		doc = "the statements from `" + sp.from + " := …` up to `" + sp.until + "…`"
 	}
 	dropDoc := ""
